@@ -29,7 +29,7 @@ vars == <<id, out>>
 (* ------------------------------------------------------------ characters *)
 
 Letters == {<<"a", "A">>, <<"b", "B">>, <<"c", "C">>, <<"d", "D">>, <<"e", "E">>, <<"g", "G">>, <<"i", "I">>,
-            <<"n", "N">>, <<"o", "O">>, <<"r", "R">>, <<"s", "S">>, <<"x", "X">>}
+            <<"n", "N">>, <<"o", "O">>, <<"r", "R">>, <<"s", "S">>, <<"x", "X">>, <<"y", "Y">>, <<"z", "Z">>}
 IsLower(c) == \E p \in Letters : p[1] = c
 IsUpper(c) == \E p \in Letters : p[2] = c
 Up(c)  == IF IsLower(c) THEN (CHOOSE p \in Letters : p[1] = c)[2] ELSE c
